@@ -156,6 +156,9 @@ class InferenceState:
     def reset_recursion_limitations(self):
         self.recursion_detector = recursion.RecursionDetector()
         self.execution_recursion_detector = recursion.ExecutionRecursionDetector(self)
+        # The budget of inferences per context is a limit per API call as well,
+        # otherwise a long living Script stops answering at some point.
+        self.inferred_element_counts = {}
 
     def get_sys_path(self, **kwargs):
         """Convenience function"""
